@@ -8,8 +8,9 @@ from vlib import log
 
 
 class Check:
-    def __init__(self, prop, tier, seed, level):
+    def __init__(self, prop, tier, seed, level, replay=False):
         self.prop, self.tier, self.seed, self.level = prop, tier, seed, level
+        self.is_replay = replay      # a replay re-validates a stored trace: it does not rewrite the evidence
         self.t0 = time.time()
         self.cov = {"states": 0, "transitions": 0, "traces_validated_against_impl": 0,
                     "samples": [], "stages": {}, "trusted_base": []}
@@ -17,7 +18,7 @@ class Check:
         self.violations = []      # (replay_path, description)
         self.known_used = []
         self.drift = []
-        self.work = vlib.workdir(prop)
+        self.work = vlib.workdir(prop + ("_replay" if replay else ""))
 
     # ---- MC ---------------------------------------------------------------------------
     def mc(self, spec_dir, module, cfg, name=None, vacuity=None, **kw):
@@ -117,8 +118,9 @@ class Check:
         if not self.cov["samples"]:
             self.cov["samples"].append("see stages")
         wall = time.time() - self.t0
-        vlib.write_evidence(self.prop, self.tier, self.seed, self.level, self.cov,
-                            self.assumptions, wall, len(self.violations))
+        if not self.is_replay:
+            vlib.write_evidence(self.prop, self.tier, self.seed, self.level, self.cov,
+                                self.assumptions, wall, len(self.violations))
         if self.violations:
             for rp, what in self.violations:
                 log(f"VIOLATION property={self.prop} replay={rp}")
